@@ -19,7 +19,8 @@ CONSTANTS MaxH,      \* bound on every chain height
           FREEZE,    \* TRUE: misbehaviour may be submitted
           TOH_OFFS,  \* v1 timeout heights offered to senders: destination height + offset
           TOT_OFFS,  \* v1 timeout timestamps: now + offset (ticks)
-          TOS_OFFS   \* v2 timeout seconds: now div 2 + offset
+          TOS_OFFS,  \* v2 timeout seconds: now div 2 + offset
+          GENESIS    \* TRUE: genesis export/import steps may be taken (C44)
 
 \* every packet ever committed by chain c (commitments are in hist or cur)
 Sent(S, c) == LET cs == S.ch[c] IN
@@ -50,7 +51,9 @@ SendActs(S) == UNION { IF S.ch[c].cur.ns > MaxSeq THEN {} ELSE
                        "data", { <<d>> : d \in DATA }) ELSE {})
       \cup
       (IF V2 THEN With(With(Base(c, "SendV2"), "toT", TimeoutSecs(S)), "data",
-                       { <<d>> : d \in DATA } \cup (IF "fail" \in DATA THEN { <<"ok","fail">>, <<"ok","ok">> } ELSE {}))
+                       { <<d>> : d \in DATA } \cup (IF "fail" \in DATA THEN { <<"ok","fail">>, <<"ok","ok">> } ELSE {})
+                       \cup (IF "fail2" \in DATA THEN { <<"ok2","fail1">>, <<"ok1","ok2">>, <<"fail2","ok1">>, <<"ok1","async">>,
+                                                         <<"ok1","ok","fail2">>, <<"ok2","ok1","ok">> } ELSE {}))
              ELSE {})
     : c \in SENDERS }
 
@@ -82,10 +85,12 @@ Received(S, c) == { S.ch[c].log[i].p : i \in { j \in DOMAIN S.ch[c].log : S.ch[c
 WriteAckActs(S) == UNION { UNION {
       With(With(Base(c, Proto(P, "WriteAck")), "pkt", {P}), "ack",
            IF P.proto = "v1" THEN {<<"ok">>, <<"err">>} ELSE {<<"ok">>, <<"SENTINEL">>})
-    : P \in { Q \in Received(S, c) : "async" \in { Q.data[i] : i \in DOMAIN Q.data } } } : c \in Chains }
+    : P \in { Q \in Received(S, c) : \E i \in DOMAIN Q.data : OutcomeOf(Q.data[i]) = "async" } } : c \in Chains }
 
 
-Honest(S) == BlockActs(S) \cup UpdateActs(S, FALSE) \cup FreezeActs(S) \cup SendActs(S)
+GenesisActs(S) == IF GENESIS THEN UNION { Base(c, "ExportImport") : c \in Chains } ELSE {}
+
+Honest(S) == GenesisActs(S) \cup BlockActs(S) \cup UpdateActs(S, FALSE) \cup FreezeActs(S) \cup SendActs(S)
              \cup RecvActs(S, FALSE) \cup AckActs(S, FALSE)
              \cup TimeoutActs(S, FALSE) \cup CloseActs(S, FALSE) \cup WriteAckActs(S)
 
